@@ -32,7 +32,7 @@ RecoverPub(sig65, utf8) ==
       R == Recover(S256, Digest(MsgDigest(utf8)), BnFromBE(SubSeq(sig65, 2, 33)), BnFromBE(SubSeq(sig65, 34, 65)), RecId(h)) IN
   IF Len(sig65) # 65 \/ ~HeaderOk(h) \/ ~R.ok THEN [ok |-> FALSE]
   ELSE [ok |-> TRUE, pub |-> EncodePoint(S256, R.pt, HdrCompressed(h))]
-\* VerifyMessage: the recovered key's P2PKH hash equals the address payload
-VerifyMessage(h160, utf8, sig65) ==
-  LET p == RecoverPub(sig65, utf8) IN p.ok /\ Hash160(p.pub) = h160
+\* VerifyMessage: the address given is the P2PKH address (on the selected chain) of the recovered key
+VerifyMessage(chain, addrText, utf8, sig65) ==
+  LET p == RecoverPub(sig65, utf8) IN p.ok /\ B58CheckEncode(PubKeyVersion(chain), Hash160(p.pub)) = addrText
 =============================================================================
